@@ -1022,3 +1022,41 @@ pub fn limb_grid(rng: &mut Rng) -> Vec<Cmd> {
     v.push(Cmd::new(3, 1, 1, RArea::Nil));
     v
 }
+
+/// Output edge family: something is written, then a value that is not a plain character — 2^32·k plus a
+/// low word, a surrogate, a value above U+10FFFF — is built and written to an output stack (as a sum or
+/// by duplication), then a little more is written.  Terminates; input-free.
+pub fn output_edge(rng: &mut Rng) -> Vec<Cmd> {
+    let mut v = Vec::new();
+    for _ in 0..rng.usize(0, 2) {
+        push_value(&mut v, rng.usize(33, 126));
+        v.push(Cmd::new(1, 1, rng.usize(1, 2), RArea::Nil));
+    }
+    match rng.below(4) {
+        0 | 1 => {
+            let low = *rng.pick(&[65usize, 0xAC00, 0x10FFFF, 0xD800, 0xDFFF, 0x110000, 0x7F, 0, 10]);
+            push_value(&mut v, 65536);
+            push_value(&mut v, 65536);
+            v.push(Cmd::new(2, 2, 3, RArea::Nil));
+            if rng.chance(40) {
+                push_value(&mut v, rng.usize(2, 70_000));
+                v.push(Cmd::new(2, 2, 3, RArea::Nil));
+            }
+            push_value(&mut v, low);
+            v.push(Cmd::new(1, 2, 3, RArea::Nil));
+        }
+        2 => push_value(&mut v, *rng.pick(&[0xD800usize, 0xDBFF, 0xDC00, 0xDFFF, 0xDABC])),
+        _ => push_value(&mut v, 0x110000 + rng.usize(0, 5000)),
+    }
+    if rng.chance(70) {
+        v.push(Cmd::new(1, 1, rng.usize(1, 2), RArea::Nil));
+    } else {
+        v.push(Cmd::new(5, rng.usize(1, 3), rng.usize(1, 2), RArea::Nil));
+        v.push(Cmd::new(5, 1, 3, RArea::Nil));
+    }
+    for _ in 0..rng.usize(0, 2) {
+        push_value(&mut v, rng.usize(33, 126));
+        v.push(Cmd::new(1, 1, 1, RArea::Nil));
+    }
+    v
+}
